@@ -184,6 +184,21 @@ def r3_name_bt(ctx):
             # the guard may only skip the last position (exponent 0)
             ok_guard = lits <= literals(Normalizer(None, inline=False, int_atoms=lambda x: True).conj([(ast.parse(f"{i} < M - 1", mode="eval").body, True)]))
             good = good and ok_guard
+        # the exponents counted down next to the values:  for val, e in zip(lst, range(m - 1, 0, -1)): ret *= val ** e
+        if lp is not None and not good and astx.call_name(lp.iter) == "zip" and len(lp.iter.args) == 2 and astx.u(lp.iter.args[0]) == f.params[1] \
+                and isinstance(lp.iter.args[1], ast.Call) and astx.call_name(lp.iter.args[1]) == "range" and len(lp.iter.args[1].args) == 3 \
+                and isinstance(lp.target, ast.Tuple) and len(lp.target.elts) == 2:
+            val, e = [astx.u(x) for x in lp.target.elts]
+            r0, r1, r2 = lp.iter.args[1].args
+            Nz = Normalizer(f.node, inline=True, int_atoms=lambda x: True, rename=lambda x: "M" if astx.u(x) == f"len({f.params[1]})" else None)
+            try:
+                okr = Nz.rat(r0).equals(spec_rat("M - 1")) and astx.is_const(r1, 0) and Nz.rat(r2).equals(spec_rat("-1"))
+            except NotClosedForm:
+                okr = False
+            v = a.value
+            d = astx.u(v)
+            good = okr and isinstance(v, ast.BinOp) and isinstance(v.op, ast.Pow) and astx.u(v.left) == val and astx.u(v.right) == e \
+                and not literals(Normalizer(f.node, inline=False).conj(astx.path_condition(f.node, a, pm)))
     init = [dv for st, dv in astx.defs_of(f.node, astx.u(augs[0].target)) if dv is not None] if augs else []
     good = good and len(init) == 1 and astx.is_const(init[0], 1)
     ctx.check(good, f, augs[0] if augs else f.node, "_make_pow = product of val_i ** (m - i - 1), 0-based", d, f"factor is `{d}`; documented val ** (m - i - 1)")
